@@ -319,3 +319,40 @@ Section WriterContract.
       apply (extends_trans s s1 s2); assumption.
   Qed.
 End WriterContract.
+
+(* ---------- the contract as one proposition, and the theorems stated against it ---------- *)
+Definition writer_contract (Sim : wstate -> lstate -> Prop) : Prop :=
+  (forall dirty st s o, Sim st s ->
+     Sim (fst (wstep dirty st o)) (fst (log_step s o)) /\ obs_ok (snd (log_step s o)) (snd (wstep dirty st o))) /\
+  (forall st s, Sim st s -> nregions st = (lstale s + length (lwin s))%nat).
+
+Theorem sw_eq_enc Sim : writer_contract Sim ->
+  forall dirty it st s,
+  Sim st s -> lerr s = None -> (lfake s = true \/ lcalls s + 1 <> lfail s) ->
+  exists st1, bw_item dirty st it = Ok (st1, E_NONE) /\
+              written_len st1 = written_len st + len (enc it) /\
+              exists B, matches (lL s) B /\
+                        o_sink (snd (wstep dirty st1 OFlush)) = Some (B ++ enc it) /\
+                        o_err (snd (wstep dirty st1 OFlush)) = E_NONE.
+Proof. intros (H1 & H2) dirty it st s. eapply sw_item_enc; eauto. Qed.
+
+Theorem sw_msg_eq_enc Sim : writer_contract Sim ->
+  forall dirty name ty seq st s,
+  Sim st s -> lerr s = None -> (lfake s = true \/ lcalls s + 1 <> lfail s) ->
+  exists st1, bw_message_begin dirty st name ty seq = Ok (st1, E_NONE) /\
+              written_len st1 = written_len st + len (enc_msg name ty seq) /\
+              exists B, matches (lL s) B /\
+                        o_sink (snd (wstep dirty st1 OFlush)) = Some (B ++ enc_msg name ty seq) /\
+                        o_err (snd (wstep dirty st1 OFlush)) = E_NONE.
+Proof. intros (H1 & H2) dirty name ty seq st s. eapply sw_message_begin_enc; eauto. Qed.
+
+Theorem sw_seq_eq_enc Sim : writer_contract Sim ->
+  forall dirty its st s,
+  Sim st s -> lerr s = None ->
+  exists st1 s1, bw_items dirty st its = Ok (st1, map (fun _ => E_NONE) its) /\ Sim st1 s1 /\
+                 lL s1 = lL s ++ map Some (concat (map enc its)) /\ lerr s1 = None.
+Proof.
+  intros (H1 & H2) dirty its st s HS He.
+  destruct (sw_items_enc Sim H1 H2 dirty its st s HS He) as (st1 & s1 & Hr & HS1 & (X1 & X2 & _)).
+  exists st1, s1. repeat split; auto. congruence.
+Qed.
